@@ -110,7 +110,7 @@ def main():
         ],
         "checks": checks,
         "not_applicable": na,
-        "notes": "All checks: ./check <ID> quick|thorough (exit 0 held / 1 VIOLATION / >=2 machinery). Known findings: known_findings.txt. See DESIGN.md.",
+        "notes": "All checks: ./check <ID> quick|thorough (exit 0 held / 1 VIOLATION / >=2 machinery). A case that does not terminate within the per-case cap (EGV_CASE_CAP_S, 120 s quick / 900 s thorough) is a VIOLATION of clause terminates with a replay file, not a machinery failure. Known findings: known_findings.txt (23 fixed, none open). Detection experiments: seeded/RESULTS.md (237 independently written changes), seeded/MUTATION_SWEEP.md. See DESIGN.md.",
     }
     json.dump(m, open(os.path.join(HERE, "MANIFEST.json"), "w"), indent=1)
     print("MANIFEST.json written:", len(checks), "checks,", len(na), "not_applicable")
